@@ -675,7 +675,235 @@ def rule_row_reads(ctx: Ctx, rep: Report) -> None:
     rep.floor(rule, 5)
 
 
+def _arms_of(fn: ast.AST) -> dict[str, list[ast.stmt]]:
+    """The arms of the `if fragment == "..." / elif / else` chain of a combinator table."""
+    out: dict[str, list[ast.stmt]] = {}
+    chain = [s for s in fn.body if isinstance(s, ast.If)]
+    if not chain:
+        return out
+    node = chain[0]
+    while True:
+        t = node.test
+        if isinstance(t, ast.Compare) and len(t.ops) == 1 and isinstance(t.ops[0], ast.Eq) and isinstance(t.comparators[0], ast.Constant):
+            out[t.comparators[0].value] = node.body
+        else:
+            return {}
+        if len(node.orelse) == 1 and isinstance(node.orelse[0], ast.If):
+            node = node.orelse[0]
+        else:
+            if node.orelse:
+                out["andor"] = node.orelse
+            return out
+
+
+def _cases(e: ast.AST, local: dict[str, ast.AST], join: str, pick: str, depth: int = 0) -> set[frozenset] | None:
+    """Alternatives of a table entry as sets of ('x'|'y'|'z', 'sat'|'dsat'): `join`
+    concatenates (cross product), `pick` chooses; constants and opcode traces add nothing."""
+    if depth > 8:
+        return None
+    if isinstance(e, ast.Constant):
+        return set() if e.value is None else {frozenset()}
+    if isinstance(e, ast.Name):
+        if e.id in local:
+            return _cases(local[e.id], local, join, pick, depth + 1)
+        m = e.id.split("_")
+        if len(m) == 2 and m[0] in ("x", "y", "z") and m[1] in ("sat", "dsat"):
+            return {frozenset({(m[0], m[1])})}
+        if e.id.startswith("_") and e.id[1:].replace("_", "").isupper():
+            return {frozenset()}
+        return None
+    if isinstance(e, ast.Attribute) and isinstance(e.value, ast.Name) and e.value.id in ("x", "y", "z") and e.attr in ("sat", "dsat"):
+        return {frozenset({(e.value.id, e.attr)})}
+    if isinstance(e, ast.Call) and len(e.args) == 2 and call_name(e) in (join, pick):
+        a, b = _cases(e.args[0], local, join, pick, depth + 1), _cases(e.args[1], local, join, pick, depth + 1)
+        if a is None or b is None:
+            return None
+        return a | b if call_name(e) == pick else {p_ | q for p_ in a for q in b}
+    return None
+
+
+def rule_stack_and_witness_agree(ctx: Ctx, rep: Report) -> None:
+    """C15.stack_and_witness_agree: the stack depth a combinator reaches
+    (`_binary_stack`) and the witness bytes it takes (`_binary_witness`) are two
+    tables over the same cases -- which of X, Y, Z is satisfied and which
+    dissatisfied on each way through the script. Arm by arm (and_v, and_b,
+    or_b, or_c, or_d, or_i, andor) the satisfaction and the dissatisfaction
+    of both are read as sets of alternatives and must be the same sets: the
+    depth of andor's dissatisfaction taken over Y's where the script runs Z's
+    passes a script the interpreter refuses, or refuses one it runs."""
+    rule = "C15.stack_and_witness_agree"
+    bs, bw = ctx.func(f"{MS}._binary_stack"), ctx.func(f"{MS}._binary_witness")
+    arms_s, arms_w = _arms_of(bs.node), _arms_of(bw.node)
+    if not arms_s or set(arms_s) != set(arms_w):
+        rep.unknown(rule, "arms", bs.where(), f"arms of the two tables: {sorted(arms_s)} / {sorted(arms_w)}")
+        return
+
+    def pair(arm: list[ast.stmt], target: str):
+        local = {s.targets[0].id: s.value for s in arm if isinstance(s, ast.Assign) and len(s.targets) == 1 and isinstance(s.targets[0], ast.Name)}
+        v = local.pop(target, None)
+        if isinstance(v, ast.Call) and call_name(v) == "_Bounds" and len(v.args) == 2:
+            return v.args[0], v.args[1], local, v
+        if isinstance(v, ast.Tuple) and len(v.elts) == 2:
+            return v.elts[0], v.elts[1], local, v
+        return None
+
+    for frag in sorted(arms_s):
+        ps, pw = pair(arms_s[frag], "traces"), pair(arms_w[frag], "bounds")
+        if ps is None or pw is None:
+            rep.unknown(rule, frag, bs.where(), "the arm does not assign a (sat, dsat) pair")
+            continue
+        for k, what in ((0, "sat"), (1, "dsat")):
+            s_ = _cases(ps[k], ps[2], "_concat", "_union")
+            w_ = _cases(pw[k], pw[2], "_add", "_worst")
+            if s_ is None or w_ is None:
+                rep.unknown(rule, f"{frag}:{what}", bs.where(ps[3]), "an alternative could not be read")
+                continue
+            show = lambda ss: sorted(sorted(f"{a.upper()}.{f}" for a, f in alt) for alt in ss)  # noqa: E731
+            rep.ob(rule, f"{frag}:{what}", s_ == w_, bs.where(ps[3]), f"both tables: {show(s_)}" if s_ == w_ else
+                   f"the stack depth is taken over {show(s_)}, the witness over {show(w_)}: one of the two is not the way the script runs")
+    rep.floor(rule, 14)
+
+
+class _NoEval(Exception):
+    pass
+
+
+def _ev(ctx: Ctx, e: ast.AST, env: dict, depth: int = 0):
+    """A folder for the type table's row expressions: sets of one-letter
+    properties under | & <=, the table's own one-line helpers inlined."""
+    if depth > 6:
+        raise _NoEval("depth")
+    if isinstance(e, ast.Constant):
+        return e.value
+    if isinstance(e, ast.Name):
+        if e.id in env:
+            return env[e.id]
+        if e.id == "_NONE":
+            return frozenset()
+        raise _NoEval(e.id)
+    if isinstance(e, ast.BinOp) and isinstance(e.op, (ast.BitOr, ast.BitAnd)):
+        a, b = _ev(ctx, e.left, env, depth), _ev(ctx, e.right, env, depth)
+        return a | b if isinstance(e.op, ast.BitOr) else a & b
+    if isinstance(e, ast.BoolOp):
+        vals = [_ev(ctx, v, env, depth) for v in e.values]
+        return all(vals) if isinstance(e.op, ast.And) else any(vals)
+    if isinstance(e, ast.UnaryOp) and isinstance(e.op, ast.Not):
+        return not _ev(ctx, e.operand, env, depth)
+    if isinstance(e, ast.IfExp):
+        return _ev(ctx, e.body if _ev(ctx, e.test, env, depth) else e.orelse, env, depth)
+    if isinstance(e, ast.Compare) and len(e.ops) == 1:
+        a, b = _ev(ctx, e.left, env, depth), _ev(ctx, e.comparators[0], env, depth)
+        op = e.ops[0]
+        if isinstance(op, ast.Eq):
+            return a == b
+        if isinstance(op, ast.NotEq):
+            return a != b
+        if isinstance(op, ast.LtE):
+            return a <= b
+        if isinstance(op, ast.In):
+            return a in b
+        raise _NoEval(type(op).__name__)
+    if isinstance(e, ast.Call) and not e.keywords:
+        nm = call_name(e)
+        if nm == "frozenset" and len(e.args) == 1:
+            return frozenset(_ev(ctx, e.args[0], env, depth))
+        callee = ctx.prog.functions.get(f"{MS}.{nm}")
+        if callee is not None:
+            body = [s for s in callee.node.body if not (isinstance(s, ast.Expr) and isinstance(s.value, ast.Constant))]
+            ps = [a.arg for a in callee.node.args.args]
+            if len(body) == 1 and isinstance(body[0], ast.Return) and len(ps) == len(e.args):
+                return _ev(ctx, body[0].value, dict(zip(ps, (_ev(ctx, a, env, depth) for a in e.args))), depth + 1)
+        raise _NoEval(f"call {nm}")
+    raise _NoEval(type(e).__name__)
+
+
+def _run(ctx: Ctx, body: list[ast.stmt], env: dict):
+    for st in body:
+        if isinstance(st, ast.Expr) and isinstance(st.value, ast.Constant):
+            continue
+        if isinstance(st, ast.Assign) and len(st.targets) == 1 and isinstance(st.targets[0], ast.Name):
+            env[st.targets[0].id] = _ev(ctx, st.value, env)
+        elif isinstance(st, ast.If):
+            r = _run(ctx, st.body if _ev(ctx, st.test, env) else st.orelse, env)
+            if r is not None:
+                return r
+        elif isinstance(st, ast.Return) and st.value is not None:
+            return _ev(ctx, st.value, env)
+        else:
+            raise _NoEval(type(st).__name__)
+    return None
+
+
+# the argument-count and stack-shape letters of the specification's table
+# (Bitcoin Core's ComputeType): z = consumes nothing, o = exactly one element,
+# n = the top element is not zero, d = can be dissatisfied, u = leaves a 1
+_COMBINATOR_ROWS = {
+    "and_v": dict(z=lambda X, Y, Z: "z" in X and "z" in Y, o=lambda X, Y, Z: ("z" in X or "z" in Y) and ("o" in X or "o" in Y),
+                  n=lambda X, Y, Z: "n" in X or ("z" in X and "n" in Y), d=lambda X, Y, Z: False, u=lambda X, Y, Z: "u" in Y),
+    "and_b": dict(z=lambda X, Y, Z: "z" in X and "z" in Y, o=lambda X, Y, Z: ("z" in X or "z" in Y) and ("o" in X or "o" in Y),
+                  n=lambda X, Y, Z: "n" in X or ("z" in X and "n" in Y), d=lambda X, Y, Z: "d" in X and "d" in Y, u=lambda X, Y, Z: True),
+    "or_b": dict(z=lambda X, Y, Z: "z" in X and "z" in Y, o=lambda X, Y, Z: ("z" in X or "z" in Y) and ("o" in X or "o" in Y),
+                 n=lambda X, Y, Z: False, d=lambda X, Y, Z: True, u=lambda X, Y, Z: True),
+    "or_c": dict(z=lambda X, Y, Z: "z" in X and "z" in Y, o=lambda X, Y, Z: "o" in X and "z" in Y,
+                 n=lambda X, Y, Z: False, d=lambda X, Y, Z: False, u=lambda X, Y, Z: False),
+    "or_d": dict(z=lambda X, Y, Z: "z" in X and "z" in Y, o=lambda X, Y, Z: "o" in X and "z" in Y,
+                 n=lambda X, Y, Z: False, d=lambda X, Y, Z: "d" in Y, u=lambda X, Y, Z: "u" in Y),
+    "or_i": dict(z=lambda X, Y, Z: False, o=lambda X, Y, Z: "z" in X and "z" in Y,
+                 n=lambda X, Y, Z: False, d=lambda X, Y, Z: "d" in X or "d" in Y, u=lambda X, Y, Z: "u" in X and "u" in Y),
+    "andor": dict(z=lambda X, Y, Z: "z" in X and "z" in Y and "z" in Z,
+                  o=lambda X, Y, Z: ("z" in X or ("z" in Y and "z" in Z)) and ("o" in X or ("o" in Y and "o" in Z)),
+                  n=lambda X, Y, Z: False, d=lambda X, Y, Z: "d" in Z, u=lambda X, Y, Z: "u" in Y and "u" in Z),
+}
+
+
+def rule_combinator_rows(ctx: Ctx, rep: Report) -> None:
+    """C15.combinator_rows: the rows of the type table that say how many stack
+    elements a combinator takes and what it leaves -- z, o, n, d, u of and_v,
+    and_b, or_b, or_c, or_d, or_i and andor -- are the specification's
+    (Bitcoin Core's ComputeType). `_and_properties`, `_or_properties` and
+    `_andor_properties` are folded over every combination of those five
+    letters in their arguments and each letter of the answer compared with
+    the specification's row: `o` of or_i granted where one branch alone
+    consumes nothing makes `s:`/`a:` wrap an expression that takes two
+    elements, and the script reads another's witness."""
+    import itertools
+    rule = "C15.combinator_rows"
+    letters = "zondu"
+    subsets = [frozenset(c) for r in range(len(letters) + 1) for c in itertools.combinations(letters, r)]
+    homes = {"and_v": "_and_properties", "and_b": "_and_properties", "or_b": "_or_properties", "or_c": "_or_properties",
+             "or_d": "_or_properties", "or_i": "_or_properties", "andor": "_andor_properties"}
+    for frag, rows in sorted(_COMBINATOR_ROWS.items()):
+        fi = ctx.func(f"{MS}.{homes[frag]}")
+        ps = [a.arg for a in fi.node.args.args]
+        bad: dict[str, str] = {}
+        try:
+            # andor has no n row: its arguments range over the other four letters
+            mine = [s_ for s_ in subsets if "n" not in s_] if frag == "andor" else subsets
+            third = mine if frag == "andor" else [frozenset()]
+            for X in mine:
+                for Y in mine:
+                    for Z in third:
+                        env = dict(zip(ps, ([X, Y, Z] if frag == "andor" else [frag, X, Y])))
+                        got = _run(ctx, fi.node.body, env)
+                        if got is None:
+                            raise _NoEval("no answer")
+                        for p_, want in rows.items():
+                            if (p_ in got) != bool(want(X, Y, Z)) and p_ not in bad:
+                                bad[p_] = f"{frag}({','.join(''.join(sorted(s)) or '-' for s in ([X, Y, Z] if frag == 'andor' else [X, Y]))}) {'has' if p_ in got else 'lacks'} `{p_}`"
+        except _NoEval as e:
+            rep.unknown(rule, frag, fi.where(), f"the rows were not folded: {e}")
+            continue
+        for p_ in rows:
+            rep.ob(rule, f"{frag}:{p_}", p_ not in bad, fi.where(), "the specification's row" if p_ not in bad else
+                   f"{bad[p_]} where the specification's row says otherwise")
+    rep.floor(rule, 35)
+
+
 RULES = [
+    ("C15.combinator_rows", rule_combinator_rows),
+
+    ("C15.stack_and_witness_agree", rule_stack_and_witness_agree),
+
     ("C15.wrapper_dissatisfaction", rule_wrapper_dissatisfaction),
     ("C15.row_reads", rule_row_reads),
     ("C15.wrapper_siblings", rule_wrapper_siblings),
